@@ -54,6 +54,18 @@ Theorem C18_all_or_nothing_partial :
 Proof. exact all_or_nothing_partial. Qed.
 Print Assumptions C18_all_or_nothing_partial.
 
+(* The other proved part: a run none of whose events can have changed the state (no successful
+   mkdir/write, RemoveAll only of "") ends in the initial state — failures before Mkdir(newDir)
+   (bad target / scope, existing or illegal newDir, a fault on operations 0..2) leave nothing behind.
+   Together with C18_all_or_nothing_partial this covers every error return except shapes (a), (b). *)
+Theorem C18_all_or_nothing_partial_early :
+  forall orc ch fuel target scope newdir fault s w out,
+    run_localize orc ch fuel target scope newdir fault s = (w, out) ->
+    Forall quiet_ev (w_trace w) ->
+    w_fs w = s.
+Proof. exact nothing_created_nothing_left. Qed.
+Print Assumptions C18_all_or_nothing_partial_early.
+
 (* leftover_at i x: on the tree of corpus/C18/two-roots.json (target /s/t, scope /s, newDir /new),
    failing fallible operation number i ends with outcome x, satisfies every hypothesis of
    all_or_nothing_law, and leaves /new behind. *)
